@@ -25,8 +25,12 @@ RULE = ("scenarios S1..S9 (one query evaluated twice; two queries sharing a vari
         "query. non-trivial = schedules with at least one preemption or a re-evaluation")
 ASSUMPTIONS = ["results are compared as sequences (objects by name); an abandoned evaluation must have produced a prefix",
                "a failure is only believed after the same schedule reproduced the same observations on a second fresh build"]
-BOUNDS = {"quick": {"iterators": 2, "results_per_query": "2-3", "restarts": 1},
-          "thorough": {"iterators": 3, "preemption_bound_3_iterators": 2, "restarts": 1}}
+BOUNDS = {"quick": {"iterators": 2, "results_per_query": "2-5", "restarts": 1, "preemption_bound_5_result_rule_scenarios": 3},
+          "thorough": {"iterators": 3, "preemption_bound_3_iterators": 2, "restarts": 1,
+                       "preemption_bound_5_result_rule_scenarios": 3}}
+# scenarios whose queries have five results: all interleavings with at most this many preemptions (switches away from an
+# iterator that still has steps left); every other two-iterator scenario is explored without a bound
+PREEMPTION_BOUND = {"S16_rule_with_alternative_and_next_twice": 3, "S17_rule_with_next_and_plain_sharing_variable": 3}
 CHUNK = 6
 RECYCLE_CHUNKS = 8
 BUDGET_S = {"quick": 900, "thorough": 8000}
@@ -110,6 +114,21 @@ def scenario(name, kind):
         if name == "S8_rule_query_twice":
             return [q, q], rend
         return [q, an(entity(x, x.b == 1))], rend
+    if name in ("S16_rule_with_alternative_and_next_twice", "S17_rule_with_next_and_plain_sharing_variable"):
+        from krrood.entity_query_language.rule import next_rule
+        x = let(W.Item, dom(), name="x")
+        v = inference(Out)()
+        q = an(entity(v, x.a == 0))
+        with q:
+            Add(v, inference(Out)(tag=1, p=x))
+            with alternative(x.b == 1):
+                Add(v, inference(Out)(tag=2, p=x))
+            with next_rule(x.b == 0):
+                Add(v, inference(Out)(tag=3, p=x))
+        rend = lambda t, r: (f"Out{r.tag}:{r.p.name}" if isinstance(r, Out) else r.name)
+        if name.startswith("S16"):
+            return [q, q], rend
+        return [q, an(entity(x, x.b == 1))], rend
     if name == "S11_variable_as_condition_then_compared":
         # entities whose truth value is False; the shared variable is used as a bare condition in one query and as an
         # operand of a comparison in the other
@@ -178,6 +197,12 @@ def reference(name):
         return [sel(lambda i: i["flag"]), sel(lambda i: not i["flag"])]
     if name == "S15_shared_comparison_root_and_operand_of_or":
         return [sel(lambda i: i["a"] == 0), sel(lambda i: i["a"] == 0 or i["b"] == 1)]
+    if name in ("S16_rule_with_alternative_and_next_twice", "S17_rule_with_next_and_plain_sharing_variable"):
+        # base a == 0 -> tag 1; else if b == 1 -> tag 2; next rule (always considered) b == 0 -> tag 3
+        rule = sorted([f"Out1:{i['name']}" for i in I if i["a"] == 0]
+                      + [f"Out2:{i['name']}" for i in I if i["a"] != 0 and i["b"] == 1]
+                      + [f"Out3:{i['name']}" for i in I if i["b"] == 0])
+        return [rule, rule] if name.startswith("S16") else [rule, sel(lambda i: i["b"] == 1)]
     return None
 
 
@@ -185,7 +210,8 @@ SCENARIOS = ["S1_same_query_twice", "S2_shared_variable", "S3_shared_condition_o
              "S5_query_and_its_use_as_subquery", "S6_two_pair_queries", "S7_domainless", "S8_rule_query_twice",
              "S9_rule_and_plain_sharing_variable", "S11_variable_as_condition_then_compared",
              "S12_shared_attribute_expression", "S13_shared_attribute_root_condition_then_operand",
-             "S14_shared_attribute_operand_then_root_condition", "S15_shared_comparison_root_and_operand_of_or"]
+             "S14_shared_attribute_operand_then_root_condition", "S15_shared_comparison_root_and_operand_of_or",
+             "S16_rule_with_alternative_and_next_twice", "S17_rule_with_next_and_plain_sharing_variable"]
 
 
 def isolated(name, kind, t):
@@ -276,6 +302,8 @@ def run_case(case):
     for sched in S.interleavings(lengths):
         npre = S.preemptions(sched, lengths)
         if len(progs) >= 3 and npre > BOUNDS["thorough"]["preemption_bound_3_iterators"]:
+            continue
+        if npre > PREEMPTION_BOUND.get(name, 99):
             continue
         res.evaluations += 1
         try:
